@@ -127,7 +127,7 @@ static void fire(int ci) {
         c.expOk = 1; c.expRej = 0; c.expVal = p.val;
         switch (c.kind) {
         case K_VALUE: { MVal v; v.ints.push_back(p.type == T_VOID ? 1000 : p.type == T_STR ? (long)p.val.str.size() : p.val.ints[0] + 1); settle_model(c.derived, M_FULFILLED, v, -1, false); break; }
-        case K_TOSTR: { MVal v; v.str = "s" + std::to_string(p.val.ints[0]); settle_model(c.derived, M_FULFILLED, v, -1, false); break; }
+        case K_TOSTR: { MVal v; v.str = "string-value-long-enough-to-live-on-the-heap-" + std::to_string(p.val.ints[0]); settle_model(c.derived, M_FULFILLED, v, -1, false); break; }
         case K_VOIDRET: settle_model(c.derived, M_UNKNOWN, MVal(), -1, false); break;   // statement silent: whether the derived promise settles
         case K_PROMISE: /* inner promise is created by the real callback; see on_promise_cb */ break;
         case K_OBSERVE: break;
@@ -188,7 +188,7 @@ template <class Rej> static void attach_int(int parent, int ci, Rej rej) {
     Async::Promise<int>& p = M->ints[M->slot[parent]];
     switch (c.kind) {
     case K_VALUE: { int d = new_node(T_INT, "then-value"); M->conts[ci].derived = d; add_real_int(p.then([ci](int v) { MVal mv; mv.ints.push_back(v); record_ok(ci, mv); return v + 1; }, rej), d); break; }
-    case K_TOSTR: { int d = new_node(T_STR, "then-tostr"); M->conts[ci].derived = d; add_real_str(p.then([ci](int v) { MVal mv; mv.ints.push_back(v); record_ok(ci, mv); return std::string("s") + std::to_string(v); }, rej), d); break; }
+    case K_TOSTR: { int d = new_node(T_STR, "then-tostr"); M->conts[ci].derived = d; add_real_str(p.then([ci](int v) { MVal mv; mv.ints.push_back(v); record_ok(ci, mv); return std::string("string-value-long-enough-to-live-on-the-heap-") + std::to_string(v); }, rej), d); break; }
     case K_VOIDRET: { int d = new_node(T_VOID, "then-void"); M->conts[ci].derived = d; add_real_void(p.then([ci](int v) { MVal mv; mv.ints.push_back(v); record_ok(ci, mv); }, rej), d); break; }
     case K_PROMISE: { int d = new_node(T_INT, "then-promise"); M->conts[ci].derived = d; add_real_int(p.then([ci](int v) { MVal mv; mv.ints.push_back(v); record_ok(ci, mv); return make_inner(ci, v); }, rej), d); break; }
     default: break;
@@ -198,7 +198,9 @@ template <class Rej> static void attach_str(int parent, int ci, Rej rej) {
     MCont& c = M->conts[ci];
     Async::Promise<std::string>& p = M->strs[M->slot[parent]];
     if (c.kind == K_VOIDRET) { int d = new_node(T_VOID, "then-void"); M->conts[ci].derived = d; add_real_void(p.then([ci](const std::string& v) { MVal mv; mv.str = v; record_ok(ci, mv); }, rej), d); }
-    else { c.kind = K_VALUE; int d = new_node(T_INT, "then-value"); M->conts[ci].derived = d; add_real_int(p.then([ci](const std::string& v) { MVal mv; mv.str = v; record_ok(ci, mv); return (int)v.size(); }, rej), d); }
+    else { c.kind = K_VALUE; int d = new_node(T_INT, "then-value"); M->conts[ci].derived = d;
+        // by value on purpose: a continuation taking its argument by value must not consume the value other consumers of the promise still get
+        add_real_int(p.then([ci](std::string v) { MVal mv; mv.str = v; record_ok(ci, mv); return (int)v.size(); }, rej), d); }
 }
 template <class Rej> static void attach_void(int parent, int ci, Rej rej) {
     MCont& c = M->conts[ci];
